@@ -53,7 +53,9 @@ def expected_hw(node, env, salt, feats):
     def sz(owner, pname):
         return E.sympy_ev(owner.ports[pname].size, dict(env), salt)
 
-    kids = list(node.children.values())          # chronological = listed order (generator does not shuffle)
+    # chronological order = the routine's `children_order` (for a document: the listed order; the generator does not shuffle)
+    order = list(getattr(node, "children_order", ()) or ())
+    kids = [node.children[n] for n in order] if sorted(order) == sorted(node.children) else list(node.children.values())
     pos = {c.name: i for i, c in enumerate(kids)}
     child_hw = [expected_hw(c, env, salt, feats) for c in kids]
     ins = [p for p in node.ports.values() if p.direction == "input"]
@@ -157,6 +159,48 @@ def oracle(case, res, extra):
         except (E.Undefined, OverflowError, KeyError):
             res.stats["point_skipped"] += 1
             continue
+    # ---- a Routine OBJECT whose `children_order` is another execution order than the one its children were inserted in (parallel
+    # branches admit several): the highwater follows the order the routine states
+    if case.seed % 2 == 0 and len(cr.children) >= 2:
+        import dataclasses
+        import itertools
+
+        import bartiq
+        from ..real import compile_routine, schema, sympy_backend
+
+        try:
+            robj = bartiq.Routine.from_qref(schema(case.qref), sympy_backend)
+            names = list(robj.children)
+            preds = {n: set() for n in names}
+            for s_, t_ in robj.connections.items():
+                if s_.routine_name is not None and t_.routine_name is not None:
+                    preds[t_.routine_name].add(s_.routine_name)
+            alts = [p for p in itertools.islice(itertools.permutations(names), 200)
+                    if list(p) != names and all(preds[n] <= set(p[:i]) for i, n in enumerate(p))]
+        except Exception:
+            alts = []
+        if alts:
+            perm = rng.choice(alts)
+            try:
+                r2 = compile_routine(dataclasses.replace(robj, children_order=tuple(perm)), **compile_kw(case.seed)).routine
+            except Exception as e:
+                res.stats["reordered_object_raised_" + type(e).__name__] += 1
+                r2 = None
+            if r2 is not None:
+                res.stats["reordered_routine_objects"] += 1
+                env = {n: Fraction(rng.randint(1, 9)) for n in r2.input_params}
+                salt = rng.randint(0, 10**6)
+                try:
+                    exp = expected_hw(r2, env, salt, set())
+                    got = E.sympy_ev(r2.resources[HW].value, dict(env), salt)
+                    if not compare.close(got, exp, True):
+                        res.violation("failing-input", "qubit highwater of a Routine object does not follow the execution order its children_order states",
+                                      {"qref": case.qref, "children_order": list(perm), "point": env, "derived_resource_name": HW,
+                                       "history": "Routine.from_qref, dataclasses.replace(children_order=...), compile_routine"},
+                                      {"compiled": str(r2.resources[HW].value), "value": got, "compiled_children_order": list(r2.children_order)}, exp)
+                        return
+                except (E.Undefined, OverflowError, KeyError):
+                    res.stats["point_skipped"] += 1
     if depth >= 2:
         feats.add("depth>=2")
     if feats & {"bypass-wire", "through-port"} or ("depth>=2" in feats and "local_ancillae" in feats):
